@@ -249,3 +249,238 @@ Lemma orig_too_long :
   let rs := bucket_prefix ++ [dash] ++ repeat 97 63 ++ [dash] ++ repeat 98 50 in
   zlen (sanitize_core_orig rs) = 128 /\ s3_validb (sanitize_core_orig rs) = false /\ s3_validb (sanitize_core rs) = true.
 Proof. vm_compute. repeat split. Qed.
+
+(* ---------- the publish path ---------- *)
+Lemma live_in ids x : live ids x = true -> In x ids.
+Proof. unfold live. intros H. apply existsb_exists in H as (y & Hy & E). apply Z.eqb_eq in E. now subst. Qed.
+
+Lemma all_live_incl ids l : all_live ids l = true -> incl l ids.
+Proof. unfold all_live. intros H x Hx. rewrite forallb_forall in H. apply live_in. now apply H. Qed.
+
+Lemma reassign_part_ok ids i p : ids <> [] -> part_ok ids (reassign_part ids i p).
+Proof.
+  intros Hne. unfold part_ok, reassign_part. cbn [p_leader p_replicas p_isr]. repeat split.
+  - destruct (live ids (p_leader p)) eqn:E; [now apply live_in|].
+    apply nth_In. apply Nat.mod_upper_bound. destruct ids; [contradiction|discriminate].
+  - destruct (all_live ids (p_replicas p)) eqn:E; [now apply all_live_incl|apply incl_refl].
+  - destruct (all_live ids (p_isr p)) eqn:E; [now apply all_live_incl|apply incl_refl].
+Qed.
+
+Lemma reassign_from_ok ids : ids <> [] -> forall ps i p, In p (reassign_from ids i ps) -> part_ok ids p.
+Proof.
+  intros Hne. induction ps as [|q ps IH]; intros i p Hin; [contradiction|].
+  destruct Hin as [<-|Hin]; [now apply reassign_part_ok|]. now apply (IH (S i)).
+Qed.
+
+Lemma reassign_from_ids ids : forall ps i, map p_id (reassign_from ids i ps) = map p_id ps.
+Proof. induction ps as [|q ps IH]; intros i; cbn; [reflexivity|]. now rewrite IH. Qed.
+
+Lemma reassign_from_len ids : forall ps i, length (reassign_from ids i ps) = length ps.
+Proof. induction ps as [|q ps IH]; intros i; cbn; [reflexivity|]. now rewrite IH. Qed.
+
+Definition topic_ok (ids : list Z) (mt : mtopic) : Prop :=
+  dense (mt_parts mt) /\ forall p, In p (mt_parts mt) -> part_ok ids p.
+
+Lemma reassign_topic_ok brokers name err ps :
+  brokers <> [] -> dense ps -> topic_ok (map b_id brokers) (mkMTopic name err (reassign brokers ps)).
+Proof.
+  intros Hne Hd. unfold topic_ok, reassign. cbn [mt_parts]. destruct brokers as [|b bs]; [contradiction|].
+  set (ids := map b_id (b :: bs)). split.
+  - unfold dense, zlen in *. now rewrite reassign_from_ids, reassign_from_len.
+  - intros p Hp. apply (reassign_from_ok ids) in Hp; [exact Hp|discriminate].
+Qed.
+
+Lemma set_parts_forall (P : mtopic -> Prop) ps : (forall name err, P (mkMTopic name err ps)) ->
+  forall ts idx, Forall P ts -> Forall P (set_parts idx ps ts).
+Proof.
+  intros Hp. induction ts as [|t ts IH]; intros idx H; [destruct idx; constructor|].
+  inversion H; subst. destruct idx; cbn; constructor; auto.
+Qed.
+
+Lemma merge_step_ok brokers next0 acc t :
+  brokers <> [] -> dense (mt_parts t) -> Forall (topic_ok (map b_id brokers)) acc ->
+  Forall (topic_ok (map b_id brokers)) (merge_step true brokers next0 acc t).
+Proof.
+  intros Hne Hd Hacc. unfold merge_step.
+  destruct (negb (nonempty (mt_name t)) || negb (mt_err t =? 0)); [exact Hacc|].
+  destruct (find_idx (mt_name t) next0 0) as [idx|].
+  - destruct (length (parts_at idx acc) <? length (mt_parts t))%nat; [|exact Hacc].
+    apply set_parts_forall; [|exact Hacc]. intros name err. now apply reassign_topic_ok.
+  - apply Forall_app. split; [exact Hacc|]. constructor; [|constructor]. now apply reassign_topic_ok.
+Qed.
+
+Lemma merge_fold_ok brokers next0 ets : brokers <> [] -> Forall (fun t => dense (mt_parts t)) ets ->
+  forall acc, Forall (topic_ok (map b_id brokers)) acc ->
+  Forall (topic_ok (map b_id brokers)) (fold_left (merge_step true brokers next0) ets acc).
+Proof.
+  intros Hne Hd. induction Hd as [|t ets Ht _ IH]; intros acc Hacc; cbn [fold_left]; [exact Hacc|].
+  apply IH. now apply merge_step_ok.
+Qed.
+
+Lemma meta_ok_forall m : meta_ok m <-> Forall (topic_ok (broker_ids m)) (m_topics m).
+Proof. unfold meta_ok, topic_ok. rewrite Forall_forall. reflexivity. Qed.
+
+Theorem merge_ok next existing :
+  m_brokers next <> [] -> meta_ok next -> Forall (fun t => dense (mt_parts t)) (m_topics existing) ->
+  meta_ok (merge next existing) /\ m_brokers (merge next existing) = m_brokers next.
+Proof.
+  intros Hne Hn He. unfold merge, merge_gen. destruct (m_topics existing) as [|t ets] eqn:E; [auto|].
+  split; [|reflexivity]. apply meta_ok_forall. unfold broker_ids. cbn [m_brokers m_topics].
+  apply merge_fold_ok; auto. now apply meta_ok_forall.
+Qed.
+
+Lemma seq_add n : forall s, seq s n = map (fun k => (s + k)%nat) (seq 0 n).
+Proof.
+  induction n as [|n IH]; intros s; cbn [seq map]; [reflexivity|].
+  f_equal; [lia|]. rewrite (IH (S s)), (IH 1%nat), map_map. apply map_ext. intros k. lia.
+Qed.
+
+Lemma seqZ_app a b : 0 <= a <= b -> seqZ a ++ map (fun i => a + i) (seqZ (b - a)) = seqZ b.
+Proof.
+  intros H. unfold seqZ. replace (Z.to_nat b) with (Z.to_nat a + Z.to_nat (b - a))%nat by lia.
+  rewrite seq_app, map_app. f_equal. cbn [Nat.add]. rewrite (seq_add _ (Z.to_nat a)), !map_map.
+  apply map_ext. intros k. lia.
+Qed.
+
+Section PublishProofs.
+Variable trim : bytes -> bytes.
+
+Lemma build_meta_ok sp topics m :
+  admissible sp -> topics_admissible topics -> build_meta trim sp topics = Done m ->
+  meta_ok m /\ m_brokers m <> [] /\ broker_ids m = seqZ (sts_replicas (sts_of trim sp)).
+Proof.
+  intros Ha Ht H. pose proof (brokers_match trim sp topics m Ha H) as (Hlen & Hids & _).
+  pose proof (leaders_valid trim sp topics m Ha H) as Hl.
+  pose proof (partitions_dense trim sp topics m H) as (_ & Hd).
+  destruct Ha as (r & Hr & Hrange).
+  assert (Hs : sts_replicas (sts_of trim sp) = r) by (unfold sts_of; cbn; now rewrite Hr).
+  split; [|split].
+  - intros mt Hmt. split.
+    + clear Hl Hlen Hids H. revert Hmt Hd. generalize (m_topics m) as mts. intros mts Hmt Hd. revert Hmt.
+      induction Hd as [|mt' t mts ts [H1 H2] _ IH]; intros Hmt; [destruct Hmt|].
+      destruct Hmt as [<-|Hmt]; [|idtac]. 2:{ apply IH; [|exact Hmt]. inversion Ht; assumption. } unfold dense. rewrite H2. exact H1.
+    + intros p Hp. exact (Hl mt p Hmt Hp).
+  - intros E. cbv zeta in Hlen. rewrite E, Hs in Hlen. unfold zlen in Hlen. cbn [length] in Hlen. lia.
+  - exact Hids.
+Qed.
+
+Definition pinv (m : meta) : Prop := meta_ok m /\ (m_brokers m = [] -> m_topics m = []).
+
+Lemma pinv0 : pinv meta0.
+Proof. split; [intros mt []|reflexivity]. Qed.
+
+Lemma pinv_dense m : pinv m -> Forall (fun t => dense (mt_parts t)) (m_topics m).
+Proof. intros [H _]. apply Forall_forall. intros t Ht. now apply H. Qed.
+
+Lemma default_leader_in m : m_brokers m <> [] -> In (default_leader m) (broker_ids m).
+Proof. unfold default_leader, broker_ids. destruct (m_brokers m); [contradiction|]. intros _. now left. Qed.
+
+Lemma new_parts_ok ids l from to : In l ids -> forall p, In p (new_parts l from to) -> part_ok ids p.
+Proof.
+  intros Hl p Hp. unfold new_parts in Hp. apply in_map_iff in Hp as (i & <- & _).
+  unfold part_ok. cbn. repeat split; try (intros x [<-|[]]); assumption.
+Qed.
+
+Lemma new_parts_dense l ps n : dense ps -> zlen ps <= n -> dense (ps ++ new_parts l (zlen ps) n).
+Proof.
+  intros Hd Hn. unfold dense in *. pose proof (zlen_nonneg ps) as Hnn.
+  rewrite map_app, Hd, zlen_app. set (k := zlen ps) in *.
+  assert (Hl : zlen (new_parts l k n) = n - k).
+  { unfold new_parts, zlen. rewrite map_length, seqZ_length. lia. }
+  rewrite Hl. replace (k + (n - k)) with n by lia.
+  unfold new_parts. rewrite map_map. cbn [p_id]. apply seqZ_app. lia.
+Qed.
+
+Lemma grow_ok ids l name n ts : In l ids -> Forall (topic_ok ids) ts -> Forall (topic_ok ids) (grow_in l name n ts).
+Proof.
+  intros Hl H. induction H as [|t ts Ht Hts IH]; cbn [grow_in]; [constructor|].
+  destruct (bytes_eqb name (mt_name t)); [|constructor; assumption].
+  constructor; [|assumption]. destruct (n <=? zlen (mt_parts t)) eqn:E; [exact Ht|].
+  destruct Ht as [Hd Hp]. split; cbn [mt_parts].
+  - apply new_parts_dense; [assumption|lia].
+  - intros p Hin. apply in_app_or in Hin as [Hin|Hin]; [now apply Hp|now apply (new_parts_ok ids l (zlen (mt_parts t)) n Hl)].
+Qed.
+
+Lemma grow_nonempty l name n ts : ts <> [] -> grow_in l name n ts <> [].
+Proof. destruct ts as [|t ts]; [contradiction|]. intros _. cbn. destruct (bytes_eqb name (mt_name t)); discriminate. Qed.
+
+Lemma delete_ok (P : mtopic -> Prop) name ts : Forall P ts -> Forall P (delete_first name ts).
+Proof.
+  induction 1 as [|t ts Ht H IH]; cbn; [constructor|].
+  destruct (bytes_eqb name (mt_name t)); [assumption|constructor; assumption].
+Qed.
+
+Lemma set_err_ok ids name code ts : Forall (topic_ok ids) ts -> Forall (topic_ok ids) (set_err name code ts).
+Proof.
+  induction 1 as [|t ts Ht H IH]; cbn; [constructor|].
+  destruct (bytes_eqb name (mt_name t)); constructor; assumption.
+Qed.
+
+Lemma pstep_inv m e : pevent_admissible e -> pinv m -> pinv (pstep trim true m e).
+Proof.
+  intros Ha [Hok Hb]. destruct e as [sp topics|name n|name n|name|name code]; cbn [pstep].
+  - destruct Ha as [Ha Ht]. destruct (build_meta trim sp topics) as [|next] eqn:E; [now split|].
+    destruct (build_meta_ok sp topics next Ha Ht E) as (Hn & Hne & _).
+    destruct (merge_ok next m Hne Hn (pinv_dense m (conj Hok Hb))) as [H1 H2]. unfold merge in H1, H2.
+    split; [exact H1|]. intros E2. rewrite H2 in E2. contradiction.
+  - split.
+    + apply meta_ok_forall. cbn. destruct (m_topics m) as [|t ts] eqn:Et; [constructor|].
+      assert (m_brokers m <> []) as Hne by (intros E; specialize (Hb E); discriminate).
+      rewrite <- Et. apply grow_ok; [now apply default_leader_in|]. now apply meta_ok_forall.
+    + cbn. intros E. rewrite (Hb E). reflexivity.
+  - destruct (m_brokers m) as [|b bs] eqn:Eb.
+    + destruct (n <=? 0); destruct (nonempty name); cbn [negb orb]; (split; [assumption|intros _; exact (Hb eq_refl)]).
+    + assert (Hm : pinv m) by (split; [assumption|rewrite Eb; discriminate]).
+      destruct (n <=? 0) eqn:En; cbn [orb]; [exact Hm|].
+      destruct (nonempty name); cbn [negb orb]; [|exact Hm].
+      destruct (find_idx name (m_topics m) 0); [exact Hm|].
+      split; [|cbn; rewrite Eb; discriminate].
+      apply meta_ok_forall. unfold broker_ids. cbn [m_brokers m_topics with_topics].
+      apply Forall_app. split; [now apply meta_ok_forall|]. constructor; [|constructor].
+      assert (In (default_leader m) (broker_ids m)) as Hl by (apply default_leader_in; rewrite Eb; discriminate).
+      split; cbn [mt_parts].
+      * pose proof (new_parts_dense (default_leader m) [] n) as H. cbn [app] in H. apply H; [reflexivity|].
+        rewrite zlen_nil. lia.
+      * intros p Hp. now apply (new_parts_ok (broker_ids m) (default_leader m) 0 n Hl).
+  - split; [|cbn; intros E; now rewrite (Hb E)].
+    apply meta_ok_forall. cbn. apply delete_ok. now apply meta_ok_forall.
+  - split; [|cbn; intros E; now rewrite (Hb E)].
+    apply meta_ok_forall. cbn. apply set_err_ok. now apply meta_ok_forall.
+Qed.
+
+Theorem published_valid es : Forall pevent_admissible es -> meta_ok (prun trim true meta0 es).
+Proof.
+  intros H. assert (forall m, pinv m -> pinv (prun trim true m es)) as Hrun.
+  { induction H as [|e es He _ IH]; intros m Hm; cbn [prun]; [exact Hm|]. apply IH. now apply pstep_inv. }
+  exact (proj1 (Hrun meta0 pinv0)).
+Qed.
+
+(* right after a publish the broker list is exactly the spec's replicas *)
+Theorem published_brokers es sp topics :
+  Forall pevent_admissible es -> admissible sp -> topics_admissible topics ->
+  let m := prun trim true meta0 (es ++ [PPublish sp topics]) in
+  meta_ok m /\ broker_ids m = seqZ (sts_replicas (sts_of trim sp)).
+Proof.
+  intros Hes Ha Ht m. split.
+  - apply published_valid. apply Forall_app. split; [exact Hes|]. constructor; [now split|constructor].
+  - unfold m. clear m. revert Hes. generalize meta0. induction es as [|e es IH]; intros m0 Hes.
+    + cbn [app prun pstep]. destruct (no_panic trim sp topics Ht) as (next & E). rewrite E.
+      destruct (build_meta_ok sp topics next Ha Ht E) as (_ & _ & Hb).
+      unfold merge_gen. destruct (m_topics m0); [exact Hb|]. unfold broker_ids in *. cbn. exact Hb.
+    + cbn [app prun]. inversion Hes; subst. now apply IH.
+Qed.
+
+End PublishProofs.
+
+(* the unfixed merge published a leader that is not a listed broker:
+   3 replicas, topic x with 3 partitions published; a broker grows x to 6; scale to 2; publish *)
+Lemma merge_orig_refuted :
+  let id := fun b : bytes => b in
+  let x := [120] in
+  let sp3 := mkSpec [100] [110] (Some 3) [] None [] in
+  let sp2 := mkSpec [100] [110] (Some 2) [] None [] in
+  let es := [PPublish sp3 [mkTopic x 3]; PGrow x 6; PPublish sp2 [mkTopic x 3]] in
+  meta_okb (prun id false meta0 es) = false /\ broker_ids (prun id false meta0 es) = [0; 1] /\
+  meta_okb (prun id true meta0 es) = true /\
+  map (fun t => zlen (mt_parts t)) (m_topics (prun id true meta0 es)) = [6].
+Proof. vm_compute. repeat split. Qed.
